@@ -141,6 +141,8 @@ func (o Op) coq() string {
 		return "OLoadRegions"
 	case "loadonce":
 		return "OLoadOnce"
+	case "loadoncecache":
+		return "OLoadOnceIntoCache"
 	case "loadoncebad":
 		return "OLoadOnceCorrupt " + coqfmt.ZU(o.ID)
 	case "loadoncepair":
@@ -220,6 +222,8 @@ type world struct {
 	useRS   bool
 	// mirrors Storage.regionLoaded only to tell "skipped" from "loaded nothing"; reset with the Storage object
 	loadedOnce bool
+	// the process's own BasicCluster (warm cache): filled by the start-up load, updated by "synced" saves; reset with the process
+	bc *core.BasicCluster
 	maxCallbacks int // 3 x everything ever saved + 10
 }
 
@@ -310,6 +314,9 @@ func (w *world) exec(o *Op) string {
 	case "saveregion":
 		r := o.V.region(o.ID)
 		o.Sz = proto.Size(r)
+		if w.bc != nil { // the way the sync client applies a region: cache first, then storage
+			w.bc.CheckAndPutRegion(core.NewRegionInfo(r, nil))
+		}
 		if err := w.st.SaveRegion(r); err != nil {
 			panic(err)
 		}
@@ -522,6 +529,43 @@ func (w *world) exec(o *Op) string {
 			}
 		}
 		return "BRegions " + status(err) + " " + coqfmt.List(xs)
+	case "loadoncecache":
+		// the start-up load of this process: LoadRegionsOnce(CheckAndPutRegion) on its own cluster; the cluster stays (warm)
+		if w.bc == nil {
+			w.bc = core.NewBasicCluster()
+		}
+		bc := w.bc
+		var xs []string
+		n := 0
+		was := w.loadedOnce
+		var lerr error
+		st := guarded(func() error {
+			lerr = w.st.LoadRegionsOnce(func(r *core.RegionInfo) []*core.RegionInfo {
+				w.guard(&n)
+				xs = append(xs, coqItem(r.GetMeta()))
+				return bc.CheckAndPutRegion(r)
+			})
+			return lerr
+		})
+		if w.useRS && was && n == 0 && lerr == nil {
+			return "BSkipped"
+		}
+		if w.useRS && lerr == nil {
+			w.loadedOnce = true
+		}
+		rs := bc.GetRegions()
+		sort.Slice(rs, func(i, j int) bool { return rs[i].GetID() < rs[j].GetID() })
+		cs := make([]string, len(rs))
+		for i, r := range rs {
+			cs[i] = coqItem(r.GetMeta())
+		}
+		var after []string
+		if w.useRS {
+			after = dump(w.rs.LeveldbKV)
+		} else {
+			after = dump(w.base.Base)
+		}
+		return fmt.Sprintf("BCache %s %s\n   %s\n   %s", st, coqfmt.List(xs), coqfmt.List(cs), coqfmt.List(after))
 	case "loadcache":
 		bc := core.NewBasicCluster()
 		var xs []string
@@ -550,7 +594,7 @@ func (w *world) exec(o *Op) string {
 	return "BUnit"
 }
 
-func (w *world) resetLoaded() { w.loadedOnce = false }
+func (w *world) resetLoaded() { w.loadedOnce = false; w.bc = nil }
 
 var etcdSrv *etcdx.Etcd
 var etcdRoot int
@@ -841,6 +885,24 @@ func genRegions(r *rng.R, k int) Case {
 		default:
 			c.Ops = append(c.Ops, Op{K: "loadonce"}, Op{K: "loadoncepair"})
 		}
+		if !overlap && len(saved) > 0 && r.Pct(50) {
+			// restart, start-up load into the process's cache, newer versions through the "syncer" (pending), the campaign
+			// selects the region storage again and calls LoadRegionsOnce again, flush, restart
+			c.Ops = append(c.Ops, Op{K: "flush"}, Op{K: "reopen"}, Op{K: "loadoncecache"})
+			for k := 0; k < 1+r.Intn(5); k++ {
+				id := saved[r.Intn(len(saved))]
+				j := 0
+				for j = range ids {
+					if ids[j] == id {
+						break
+					}
+				}
+				v := genDisjoint(r, j, big)
+				v.ConfVer += 30
+				c.Ops = append(c.Ops, Op{K: "saveregion", ID: id, V: v})
+			}
+			c.Ops = append(c.Ops, Op{K: "switch", P: 1}, Op{K: "loadoncecache"}, Op{K: "flush"}, Op{K: "reopen"}, Op{K: "loadregions"})
+		}
 	}
 	// delete some, overwrite some, then prune into a cache and load again
 	for _, id := range saved {
@@ -926,8 +988,13 @@ func fixedCases() []Case {
 	oncePair := Case{Backend: "mem", Ops: append(append([]Op{{K: "switch", P: 1}}, six()...), Op{K: "flush"}, Op{K: "loadoncepair"}, Op{K: "loadonce"})}
 	// shutdown order of pd-server: cancel the context, then Close — the pending batch must still be written
 	cancelClose := Case{Backend: "mem", Ops: append(append([]Op{{K: "switch", P: 1}}, six()...), Op{K: "cancelclose"}, Op{K: "loadregions"})}
+	// a former follower is elected: it has loaded its region storage once, received a newer version of a region through
+	// the syncer (still pending), and SwitchToRegionStorage is called again by the campaign; then flush, restart, load
+	handOver := Case{Backend: "mem", Ops: []Op{{K: "switch", P: 1}, {K: "saveregion", ID: 4, V: v1}, {K: "saveregion", ID: 9, V: &RV{Start: 50, End: 60, ConfVer: 1, Version: 1}},
+		{K: "flush"}, {K: "reopen"}, {K: "loadoncecache"}, {K: "saveregion", ID: 4, V: v1b}, {K: "switch", P: 1}, {K: "loadoncecache"},
+		{K: "flush"}, {K: "reopen"}, {K: "loadregions"}}}
 	return []Case{
-		wrap, delBoth, pruneBoth, onceRetry, oncePair, cancelClose, tick, cif(true), cif(false), faults, raceCase(true), raceCase(false), raceCase(true), raceCase(false),
+		wrap, delBoth, pruneBoth, onceRetry, oncePair, cancelClose, handOver, tick, cif(true), cif(false), faults, raceCase(true), raceCase(false), raceCase(true), raceCase(false),
 		// S9 on the stores namespace and on the regions namespace
 		{Backend: "mem", Ops: []Op{{K: "savestore", ID: 1, P: 1}, {K: "savestore", ID: top, P: 2}, {K: "loadstores"}}},
 		{Backend: "mem", Ops: []Op{{K: "saveregion", ID: 1, V: one}, {K: "saveregion", ID: top, V: two}, {K: "loadregions"}}},
@@ -1217,7 +1284,7 @@ func checkGo(R *res.Result, c Case) {
 				R.Violate("C17:load-once:returned-before-first-load-finished",
 					"two overlapping LoadRegionsOnce callers: the second returned nil without delivering anything while the first had delivered a single region", slim(c))
 			}
-		case "loadregions", "loadonce", "loadcache":
+		case "loadregions", "loadonce", "loadcache", "loadoncecache":
 			if strings.Contains(ob, " RDiverged ") {
 				R.Violate("C17:load:endless-scan", "the region load does not terminate (the callback was invoked more than 3x the number of saved items)", slim(c))
 			}
@@ -1249,7 +1316,7 @@ func checkGo(R *res.Result, c Case) {
 					}
 				}
 			}
-			if o.K == "loadcache" {
+			if o.K == "loadcache" || o.K == "loadoncecache" {
 				wantRegions = got // pruned: resynchronise below from the dump is left to the Coq monitor
 				known = false
 			}
